@@ -371,6 +371,8 @@ def gen_contest(rng, tier, like=None):
         out["votes_type"] = rng.choice(["defaultdict", "defaultdict", "ordered"])
     if rng.chance(0.12):
         out["np_marks"] = True      # marks held as numpy scalars (np.int64(5), np.bool_(True))
+    from ..core import CONTAINER_KINDS
+    out["container"] = rng.choice(CONTAINER_KINDS)
     return out
 
 
@@ -641,6 +643,7 @@ def _cvrs(case):
 
 _VOTES_TYPE = [None]
 _NP_MARKS = [False]
+_CONTAINER = [None]
 
 
 def _try(f):
@@ -653,14 +656,16 @@ def _try(f):
 def _field(a, f, cvrs, dflt=False):
     from shangrla.core.Audit import Assertion
     style = f.endswith("_style")
+    from ..core import container
+    cv = container(_CONTAINER[0], cvrs)     # a fresh container per call: the functions make one pass over the records
     # `dflt`: style-based evaluation is the default of mean / sum / margin -- the argument is left out
     kw = {} if (dflt and style) else {"use_style": style}
     if f.startswith("mean"):
-        return _num(a.assorter.mean(cvrs, **kw))
+        return _num(a.assorter.mean(cv, **kw))
     if f.startswith("sum"):
-        return _num(a.assorter.sum(cvrs, **kw))
+        return _num(a.assorter.sum(cv, **kw))
     # the method Assertion.margin is shadowed by the instance attribute `margin`; call it through the class
-    return _num(Assertion.margin(a, cvrs, **kw))
+    return _num(Assertion.margin(a, cv, **kw))
 
 
 def _siblings(cons, cid, opts):
@@ -698,14 +703,16 @@ def _evaluate(cons, con, cid, cvrs, order, opts=None):
     tallies = {}
     tcons = _siblings(cons, cid, opts)
     for enforce, tag in ((True, "enforce"), (False, "noenforce")):
+        from ..core import container
+        cv = container(_CONTAINER[0], cvrs)
         with warnings.catch_warnings():
             warnings.simplefilter("ignore")
             if dflt and enforce:
-                Contest.tally(tcons, cvrs)              # enforce_rules=True is the default
+                Contest.tally(tcons, cv)                # enforce_rules=True is the default
             elif dflt:
-                Contest.tally(con_dict=tcons, cvr_list=cvrs, enforce_rules=False)
+                Contest.tally(con_dict=tcons, cvr_list=cv, enforce_rules=False)
             else:
-                Contest.tally(tcons, cvrs, enforce_rules=enforce)
+                Contest.tally(tcons, cv, enforce_rules=enforce)
         tallies[tag] = {k: int(v) for k, v in con.tally.items()}
         for key, a in con.assertions.items():
             def f(a=a):
@@ -734,11 +741,13 @@ def _amend(cvrs, ops):
 def impl_contest(case):
     _VOTES_TYPE[0] = case.get("votes_type")
     _NP_MARKS[0] = bool(case.get("np_marks"))
+    _CONTAINER[0] = case.get("container")
     try:
         return _impl_contest(case)
     finally:
         _VOTES_TYPE[0] = None
         _NP_MARKS[0] = False
+        _CONTAINER[0] = None
 
 
 def _impl_contest(case):
